@@ -56,6 +56,7 @@ class Oracle(object):
         from . import sut as _sut
         self.real_monitor = _Mon.collate_actor_dataframes is _sut._REAL_COLLATE
         self.parts = (sc.get('alg_params') or {}).get('max_resource_partitions')
+        self.resv_set = {}
 
     # ----------------------------------------------------------------- utils
     def viol(self, prop, clause, msg, site=''):
@@ -141,7 +142,7 @@ class Oracle(object):
                 self.viol('C01', 'two_holders_on_machine', '%s: %s' % (
                     mid, [x['tid'] for x in self.open_holders[mid]]))
             # C09: batch tasks only on own reservation
-            if self.pairing == 'batch' and h is not None and not h['ingest']:
+            if self.pairing == 'batch' and h is not None and not h['ingest'] and not self.adv:
                 own = 'idle:%s' % h['obs']
                 if h['pool'] != [own]:
                     self.viol('C09', 'task_outside_own_reservation',
@@ -150,7 +151,7 @@ class Oracle(object):
                 if h['pool'] and any(p.startswith('idle:') for p in h['pool']):
                     self.viol('C09', 'ingest_on_reserved_machine', '%s on %s %s' % (task.id, mid, h['pool']))
             # C17 planned machine
-            if not e['ingest'] and self.pairing == 'dynamic':
+            if not e['ingest'] and self.pairing == 'dynamic' and not self.adv:
                 on = self.obs_of(task.id)
                 if on in self.ob:
                     pm = self.ob[on]['planned'].get(task.id)
@@ -296,9 +297,36 @@ class Oracle(object):
         except Exception as e:          # a broken query is a C14 failure, not a harness error
             bad('query_raises', '%s: %s' % (type(e).__name__, e))
         L['plan_ok'] = ok
+        L['plan_obj'] = (plan, dict(gpred), dict(gsucc))
+        # a plan handed over earlier must still answer for its own tasks after later plans were generated
+        # (two observations may share one workflow description)
+        for other, LL in self.ob.items():
+            if other != o.name and LL.get('plan_obj') and LL.get('plan_ok'):
+                self._recheck_plan(other, 'after %s was planned' % o.name)
         self.probe('plans_checked')
         if len(nodes) >= 4 and any(len(p) >= 2 for p in gpred.values()):
             self.probe('plan_with_join')
+
+    def _recheck_plan(self, on, when):
+        plan, gpred, gsucc = self.ob[on]['plan_obj']
+        byn = {}
+        for t in list(plan.graph.nodes()):
+            byn[self.node_of(getattr(t, 'id', str(t)))] = t
+        try:
+            for n in gpred:
+                t = byn.get(n)
+                if t is None or not str(getattr(t, 'id', '')).startswith(on + '_'):
+                    self.viol('C14', 'plan_changed_later', '%s: graph of the plan no longer holds its own task for node %s (%s); nodes now %s' % (
+                        on, n, when, [getattr(x, 'id', x) for x in list(plan.graph.nodes())[:4]]))
+                    return
+                ps = {self.node_of(x.id) for x in plan.get_task_predecessors(t)}
+                ss = {self.node_of(x.id) for x in plan.get_task_successors(t)}
+                if ps != gpred[n] or ss != gsucc[n]:
+                    self.viol('C14', 'plan_changed_later', '%s node %s: predecessors %s successors %s, graph says %s / %s (%s)' % (
+                        on, n, sorted(ps), sorted(ss), sorted(gpred[n]), sorted(gsucc[n]), when))
+                    return
+        except Exception as e:
+            self.viol('C14', 'plan_changed_later', '%s: query raises %s: %s (%s)' % (on, type(e).__name__, e, when))
 
     # ------------------------------------------------------------------- exit
     def on_exit(self, rec):
@@ -417,9 +445,16 @@ class Oracle(object):
             idle = r['idle']
             if len(idle) > self.parts:
                 self.viol('C09', 'too_many_reservations', '%s > %s' % (sorted(idle), self.parts))
+            for o, ms_ in idle.items():
+                R = self.resv_set.get(o)
+                if R is not None and o in self.prev_idle and not self.adv:
+                    extra = [m.id for m in ms_ if m.id not in R]
+                    if extra:
+                        self.viol('C09', 'reservation_grew', '%s was reserved %s and now also holds %s' % (o, sorted(R), extra))
             if idle.keys() != self.prev_idle.keys():
                 for o in idle:
                     if o not in self.prev_idle:
+                        self.resv_set[o] = {m.id for m in idle[o]}
                         self._on_reservation(o, len(idle[o]))
                 for o in self.prev_idle:
                     if o not in idle:
@@ -637,6 +672,20 @@ class Oracle(object):
                 self.viol('C04', 'never_completes_under_adversarial_proposals',
                           'no error and no completion by t=%s (bound %s); tasks never executed: %s; fired %s' % (
                               self.env.now, res.bound, miss[:8], dict(self.fs.fired) if self.fs else {}))
+        if res.status == 'budget' and not self.adv:
+            # asked to run to completion, a feasible configuration never gets there: some observation is never
+            # observed or some task never executed (the liveness side is C05's; the known cold-storage parking is
+            # excluded by state exactly as above)
+            b = self.sim.buffer
+            from .scenario import feasible as _feasible
+            if _feasible(self.sc) and not b.cold[0].observations['stored'] and b.cold[0].observations['transfer'] is None:
+                never = [n for n in self.obsnames if not self.ob[n]['start']]
+                miss = []
+                for n in self.obsnames:
+                    done = {self.node_of(e['tid']) for e in self.execs if not e['ingest'] and self.obs_of(e['tid']) == n}
+                    miss += ['%s_%s' % (n, x) for x in sorted(set(self.v.nodes(n)) - done)]
+                self.viol('C04', 'never_completes', 'no completion by t=%s (bound %s); observations never observed: %s; tasks never '
+                          'executed: %s' % (self.env.now, res.bound, never, miss[:8]))
         if not completed and res.status == 'exc' and not self.adv:
             from .scenario import feasible
             if feasible(self.sc):
